@@ -300,6 +300,14 @@ struct LHarness {
 		(void)grab;
 		if(proto == P_INT) { if(Disp) d->template forEach<void(int)>(k, [&](const std::function<void(int)> &) { en.push_back(1); }); else l->template forEach<void(int)>([&](const std::function<void(int)> &) { en.push_back(1); }); }
 		if(proto == P_STR) { if(Disp) d->template forEach<void(const std::string &)>(k, [&](const std::function<void(const std::string &)> &) { en.push_back(1); }); else l->template forEach<void(const std::string &)>([&](const std::function<void(const std::string &)> &) { en.push_back(1); }); }
+		// forEachIf stops after the first callback whose functor returns false, and reports that
+		if((proto == P_INT || proto == P_STR) && !ctx.failed) {
+			size_t visited = 0; bool r;
+			if(proto == P_INT) { if(Disp) r = d->template forEachIf<void(int)>(k, [&](const std::function<void(int)> &) { return ++visited < 2; }); else r = l->template forEachIf<void(int)>([&](const std::function<void(int)> &) { return ++visited < 2; }); }
+			else { if(Disp) r = d->template forEachIf<void(const std::string &)>(k, [&](const std::function<void(const std::string &)> &) { return ++visited < 2; }); else r = l->template forEachIf<void(const std::string &)>([&](const std::function<void(const std::string &)> &) { return ++visited < 2; }); }
+			size_t have = order[key][proto].size();
+			if(visited != std::min<size_t>(have, 2) || r != (have < 2)) ctx.fail("foreach-differs", fmt("forEachIf over %s (stop at the 2nd) visited %zu callbacks and returned %d, the model holds %zu", protoName(proto), visited, (int)r, have));
+		}
 		if((proto == P_INT || proto == P_STR) && en.size() != order[key][proto].size() && !ctx.failed) ctx.fail("foreach-differs", fmt("forEach over %s visited %zu callbacks, the model holds %zu", protoName(proto), en.size(), order[key][proto].size()));
 	}
 	int nKeys() const { return Disp ? 2 : 1; }
